@@ -32,6 +32,7 @@ var externModelDocs = map[string]string{
 func init() {
 	externModels = map[string]externModel{
 		"bytes.Compare": modelBytesCompare,
+		"sort.Search":   modelSortSearch,
 		"bytes.Equal":   modelBytesEqual,
 		"(encoding/binary.bigEndian).Uint16": func(f *Frame, in ssa.Instruction, g string, st *State, a []Val, rt types.Type) Val {
 			return modelBEGet(f, in, g, st, a, rt, 2)
@@ -66,6 +67,27 @@ func init() {
 			return Val{T: fmt.Sprintf("(and (<= (slen %s) (slen %s)) (= (ssub %s (- (slen %s) (slen %s)) (slen %s)) %s))", p, s, s, s, p, s, p), Typ: rt}
 		},
 	}
+}
+
+// sort.Search(n, f): result in [0,n]; f is run on an arbitrary index in [0,n) (its obligations are checked once,
+// for every index), and everything it may write is havocked (it may run any number of times).
+func modelSortSearch(f *Frame, in ssa.Instruction, guard string, st *State, args []Val, rt types.Type) Val {
+	e := f.e
+	n := args[0]
+	j := e.fresh("search_j", sInt)
+	e.assert(fmt.Sprintf("(and (<= 0 %s) (<= %s %s))", j, j, n.T))
+	if clo := args[1].Clo; clo != nil {
+		i := e.fresh("search_i", sInt)
+		e.assert(fmt.Sprintf("(and (<= 0 %s) (< %s %s))", i, i, n.T))
+		g := e.define("search_g", sBool, and(guard, fmt.Sprintf("(> %s 0)", n.T)))
+		sub := st.clone()
+		f.callFunc(in, clo.Fn, clo.Bindings, g, sub, []Val{{T: i, Typ: types.Typ[types.Int]}}, types.Typ[types.Bool])
+		f.havocWrites(clo.Fn, st)
+	} else {
+		e.note("sort.Search with an unknown function value: all heaps havocked")
+		f.havocAll(st)
+	}
+	return Val{T: j, Typ: rt}
 }
 
 func byteHeap(f *Frame, st *State) (string, string, string) {
